@@ -28,6 +28,15 @@ def translate(ctx):
     pc.translated(ctx)
 
 
+def with_option(case, rng, prob=0.3):
+    """sometimes switch on Panel.force_orthotropic_laminate, on a laminate where it matters (off-axis, unsymmetric)"""
+    if rng.random() < prob:
+        case['force_ortho'] = True
+        if all(abs(a_) % 90 == 0 for a_ in case['stack']) or list(case['stack']) == list(case['stack'])[::-1]:
+            case['stack'] = list(case['stack']) + [rng.choice([30., -55., 17.])]
+    return case
+
+
 def mats(case, which=('k0', 'kG0', 'kM'), N=(-1., 0., 0.)):
     p = pc.make_panel(case)
     p.Nxx, p.Nyy, p.Nxy = N
@@ -41,7 +50,7 @@ def mats(case, which=('k0', 'kG0', 'kM'), N=(-1., 0., 0.)):
 
 
 def pair_alpha0(ctx, rng):
-    case = pc.gen_panel_case(rng, models=('KPanel',), max_mn=3)
+    case = with_option(pc.gen_panel_case(rng, models=('KPanel',), max_mn=3), rng)
     case['alphadeg'] = 0.
     N = (rng.uniform(-5, 5), rng.uniform(-5, 5), rng.uniform(-5, 5))
     A, _ = mats(case, N=N)
@@ -55,7 +64,7 @@ def pair_alpha0(ctx, rng):
 
 
 def pair_large_radius(ctx, rng):
-    case = pc.gen_panel_case(rng, models=('CPanel',), max_mn=3)
+    case = with_option(pc.gen_panel_case(rng, models=('CPanel',), max_mn=3), rng)
     pl = dict(case, lean_model='Plate', model=pc.MODEL_OF['Plate'], r=None)
     K0, _ = mats(pl, which=('k0',))
     Ks = {}
@@ -84,11 +93,22 @@ def pair_large_radius(ctx, rng):
 
 
 def pair_w_block(ctx, rng):
-    case = pc.gen_panel_case(rng, models=('Plate',), max_mn=4)
+    case = with_option(pc.gen_panel_case(rng, models=('Plate',), max_mn=4), rng)
+    if rng.random() < 0.5:      # reference surface away from the mid-plane (by up to a few thicknesses): rotary inertia d^2 + h^2/12
+        case['offset'] = rng.choice([-1, 1]) * rng.uniform(0.3, 4.) * case['plyt'] * len(case['stack'])
     N = (rng.uniform(-5, 5), rng.uniform(-5, 5), rng.uniform(-5, 5))
-    A, _ = mats(case, which=('k0', 'kG0'), N=N)
+    A, pa = mats(case, which=('k0', 'kG0', 'kM'), N=N)
     cw = dict(case, lean_model='PlateW', model=pc.MODEL_OF['PlateW'])
-    B, _ = mats(cw, which=('k0', 'kG0'), N=N)
+    B, pb = mats(cw, which=('k0', 'kG0', 'kM'), N=N)
+    # aerodynamic matrices (flow along x and along y) and the aerodynamic damping matrix act on w only
+    for flow in ('x', 'y'):
+        for p_ in (pa, pb):
+            p_.flow, p_.beta, p_.gamma, p_.aeromu = flow, 3.7, 0.0, 0.21
+        try:
+            A['kA' + flow], B['kA' + flow] = (pc.quiet(p_.calc_kA, silent=True).toarray() for p_ in (pa, pb))
+            A['cA' + flow], B['cA' + flow] = (pc.quiet(p_.calc_cA, 0.21, silent=True).toarray() for p_ in (pa, pb))
+        except Exception as e:                          # noqa  (an option combination the package rejects for both models)
+            pass
     for k in B:
         d = pc.rel_diff(A[k][2::3, 2::3], B[k])
         if d > 1e-10:
@@ -139,7 +159,7 @@ def exchange_case(case):
 
 
 def pair_axis_exchange(ctx, rng):
-    case = pc.gen_panel_case(rng, models=('Plate',), max_mn=4, y12=False)
+    case = with_option(pc.gen_panel_case(rng, models=('Plate',), max_mn=4, y12=False), rng, 0.4)
     for k in case['flags']:
         case['flags'][k] = float(rng.choice([0, 1]))
     case['m'] = case['n'] = rng.choice([3, 4])
@@ -167,7 +187,7 @@ def pair_axis_exchange(ctx, rng):
 
 
 def pair_similarity(ctx, rng):
-    case = pc.gen_panel_case(rng, models=('Plate', 'CPanel'), max_mn=3, y12=False)
+    case = with_option(pc.gen_panel_case(rng, models=('Plate', 'CPanel'), max_mn=3, y12=False), rng)
     for k in case['flags']:
         case['flags'][k] = float(rng.choice([0, 1]))
     for e in ('1t', '2t'):
